@@ -5,7 +5,8 @@ import re
 import sys
 sys.path.insert(0, os.path.dirname(os.path.abspath(__file__)))
 from extract import Source, AnchorLost, sha
-from verus_engine import extract_type, splice_fn, filter_derives
+from verus_engine import extract_type, filter_derives
+from verus_engine import splice_fn_safe as splice_fn     # per-function isolation (anchor lost / unsupported construct)
 from vlib import VERIF
 
 PARSER_FNS = ['next_lexem', 'drop_lexem', 'there_are_remaining_lexems', 'parse_where', 'parse_expr', 'parse_and',
